@@ -120,7 +120,10 @@ def gen(rng, tier):
         if rng.random() < 0.3 and L > 1:
             seq[-1] = "Output"
         cases.append({"kind": "fromlist", "recipes": [V.enc_recipe(c11.leaf(rng, c)) for c in seq],
-                      "hist": [rng.choice(ops) for _ in range(rng.choice([0, 1, 2]))]})
+                      "hist": [rng.choice(ops) for _ in range(rng.choice([0, 1, 2]))],
+                      # from_list applied to a graph that from_list built: the end points then carry the inner graph's type
+                      # DICTIONARIES as their port types (a dictionary-valued entry), which must be mirrored like any other
+                      "nest": rng.choice([0, 0, 0, 1, 1, 2])})
     return cases
 
 
@@ -134,6 +137,12 @@ def same_type(a, b):
         if x is None or y is None:
             if x is not y:
                 return False
+        elif isinstance(x, dict) or isinstance(y, dict):
+            # a dictionary-valued entry (the end points of from_list(graph) carry the inner graph's type dictionaries)
+            if not same_type(x, y):
+                return False
+        elif np.asarray(x).dtype.kind == "O" or np.asarray(y).dtype.kind == "O":
+            return False
         elif not (np.asarray(x).shape == np.asarray(y).shape and np.array_equal(np.asarray(x), np.asarray(y))):
             return False
     return True
@@ -179,10 +188,12 @@ def subgraphs(g):
 def run(c):
     import nir
     if c["kind"] == "fromlist":
-        sig = repr((c["recipes"], c["hist"]))
+        sig = repr((c["recipes"], c["hist"], c.get("nest", 0)))
         try:
             with quiet():
                 g = nir.NIRGraph.from_list(*[V.build(V.dec_recipe(x)) for x in c["recipes"]])
+                for _ in range(c.get("nest", 0)):
+                    g = nir.NIRGraph.from_list(g)
         except BaseException:  # noqa: BLE001
             return Outcome(None, None, False, sig)
         r, b = None, ("ok", g)
